@@ -148,6 +148,20 @@ def run_harness(binary, text, timeout=3600, env=None, args=()):
                        timeout=timeout, env=e)
     return r.returncode, r.stdout, r.stderr
 
+def run_watchdog(cmd, timeout, **kw):
+    """run a command in its own process group; on timeout kill the whole group. -> (returncode | 'hang', stdout, stderr)"""
+    import signal
+    p = subprocess.Popen(cmd, stdout=subprocess.PIPE, stderr=subprocess.PIPE, text=True, start_new_session=True, **kw)
+    try:
+        out, err = p.communicate(timeout=timeout)
+        return p.returncode, out, err
+    except subprocess.TimeoutExpired:
+        try: os.killpg(p.pid, signal.SIGKILL)
+        except ProcessLookupError: pass
+        try: out, err = p.communicate(timeout=10)
+        except Exception: out, err = "", ""
+        return "hang", out or "", err or ""
+
 # ---------------------------------------------------------------------------------- results
 
 def known_findings():
